@@ -93,11 +93,10 @@ func (dm *DagModifier) WriteAt(b []byte, offset int64) (int, error) {
 	// TODO: this is currently VERY inefficient
 	// each write that happens at an offset other than the current one causes a
 	// flush to disk, and dag rewrite
-	if offset == int64(dm.writeStart) && dm.wrBuf != nil {
-		// If we would overwrite the previous write
-		if len(b) >= dm.wrBuf.Len() {
-			dm.wrBuf.Reset()
-		}
+	if offset == int64(dm.writeStart) && dm.wrBuf != nil && len(b) >= dm.wrBuf.Len() {
+		// We overwrite the whole previous write: drop it. (A shorter write must
+		// not take this path, it would be appended to the pending data.)
+		dm.wrBuf.Reset()
 	} else if uint64(offset) != dm.curWrOff {
 		size, err := dm.Size()
 		if err != nil {
